@@ -6,6 +6,7 @@ import Req.H2.Fields
 import Req.H1.Origin
 import Req.H3.BodyWrite
 import Req.H1.BodyWrite
+import Req.H2.BodyWire
 import Req.H1.RoundTrip
 import Req.Client.Replay
 import Req.Props.C01ConnSeq
@@ -330,6 +331,33 @@ def laneH1Body : List String → String
     | _, _, _, _, _, _ => "bad-op"
   | _ => "bad-op"
 
+/-- `c01h2wire <sid> <maxRead> <body> <frame sizes> <ends> <tail>`: `Framer.WriteData` for every
+frame (`ends`: 0 plain, 1 END_STREAM, 2 a frame of stream `sid+2`) and an origin collecting the
+content of stream `sid` with `Framer.ReadFrame`. -/
+def laneH2Wire : List String → String
+  | [sid, maxRead, body, sizes, ends, tail] =>
+    match sid.toNat?, maxRead.toNat?, Wire.decodeBody body, decodeNatList sizes, decodeNatList ends, decodeHex tail with
+    | some sid, some maxRead, some body, some sizes, some ends, some tail =>
+      if sizes.length != ends.length then "bad-op" else
+      let rec cut (b : Bytes) : List Nat → List Bytes
+        | [] => []
+        | z :: zs => b.take z :: cut (b.drop z) zs
+      let other := if sid + 2 ≥ 2147483648 then 1 else sid + 2
+      let parts := (cut body sizes).zip ends
+      let enc := parts.map fun (p, e) =>
+        if e == 2 then Req.H2.BodyWire.frameWire other (.data p false)
+        else Req.H2.BodyWire.frameWire sid (.data p (e == 1))
+      match enc.foldr (fun x acc => match x, acc with | some a, some b => some (a ++ b) | _, _ => none) (some []) with
+      | none => "write-error"
+      | some w =>
+        let rd : Req.H2.Frame.Reader := { maxReadSize := Req.H2.Frame.setMaxReadFrameSize maxRead }
+        match Req.H2.BodyWire.readBody sid (parts.length + 1) rd (w ++ tail) with
+        | none => s!"wire {Wire.showBlob w} read none"
+        | some (ds, rest) =>
+          s!"wire {Wire.showBlob w} read {encodeNatList (ds.map (·.length))} {Wire.showBlob ds.flatten} rest={rest.length}"
+    | _, _, _, _, _, _ => "bad-op"
+  | _ => "bad-op"
+
 /-! ### transparent replays -/
 
 def decodeKind : String → Option Req.Replay.BodyKind
@@ -505,6 +533,7 @@ def lanes : List (String × (List String → String)) := [
   ("c01h2body", laneH2Body),
   ("c01h3body", laneH3Body),
   ("c01h1body", laneH1Body),
+  ("c01h2wire", laneH2Wire),
   ("c01pipe", lanePipe),
   ("c01h1", laneH1),
   ("c01url", laneUrl),
